@@ -5,6 +5,7 @@ injector) and units share the packages of the program, so that one generated fil
 several injectors.  Type descriptors: ('v', i) struct value S_i, ('p', i) *S_i, ('s', i) []S_i,
 ('i', j) interface I_j.  Every descriptor is interned to an int for the planner protocol."""
 import random
+import re
 
 MOD = "example.com/w"
 
@@ -53,6 +54,9 @@ class Prog:
 
 
 PREDECLARED = ("copy", "len", "new", "append", "cap", "make", "string", "nil", "true", "error", "int")
+
+
+WIRE_IMPORT = {"plain": "github.com/google/wire", "dot": ". github.com/google/wire", "renamed": "wr github.com/google/wire"}
 
 
 def sname(u, i):
@@ -523,7 +527,7 @@ def imports_for(prog, pkgs_used, frm, extra=()):
             alias = "" if q == prog.pkgmap[p]["name"] else q + " "
             lines.append('\t%s"%s"' % (alias, prog.path(p)))
     for e in extra:
-        lines.append('\t"%s"' % e)
+        lines.append('\t%s"%s"' % ((e.split()[0] + " ", e.split()[1]) if " " in e else ("", e)))
     return "import (\n" + "\n".join(lines) + "\n)\n" if lines else ""
 
 
@@ -709,19 +713,25 @@ def materialise(prog):
         if inj_body and pkg == "app":
             # declarations next to the injectors, which Wire copies into its output
             inj_body += list(getattr(prog, "inj_helpers", []))
+        wimp = getattr(prog, "wire_import", "plain")
+        if inj_body and wimp != "plain":
+            # the marker functions reached through a dot import or a renamed import
+            rep_ = "" if wimp == "dot" else "wr."
+            inj_body = [re.sub(r"\bwire\.", rep_, x) for x in inj_body]
         if inj_body:
             nfiles = getattr(prog, "inj_files", 1)
             if nfiles <= 1 or len(inj_body) < 2:
                 files["%s/wire.go" % pdir] = "//go:build wireinject\n// +build wireinject\n\npackage %s\n\n%s\n%s\n" % (
-                    pname, imports_for(prog, inj_used, pkg, ["github.com/google/wire"]), "\n\n".join(inj_body))
+                    pname, imports_for(prog, inj_used, pkg, [WIRE_IMPORT[wimp]]), "\n\n".join(inj_body))
             else:
                 # the injectors of the package spread over several files (every file imports everything and says so)
-                anchors = ["var _ = %s.Anchor" % prog.qual(q) for q in sorted(inj_used) if q != pkg] + ["var _ wire.ProviderSet"]
+                anchors = ["var _ = %s.Anchor" % prog.qual(q) for q in sorted(inj_used) if q != pkg] + [
+                    "var _ %sProviderSet" % {"plain": "wire.", "dot": "", "renamed": "wr."}[wimp]]
                 for k in range(min(nfiles, len(inj_body))):
                     part = inj_body[k::nfiles]
                     fname = ["wire.go", "a_wire.go", "z_inject.go", "m_wire.go"][k % 4] if k < 4 else "wire%d.go" % k
                     files["%s/%s" % (pdir, fname)] = "//go:build wireinject\n// +build wireinject\n\npackage %s\n\n%s\n%s\n\n%s\n" % (
-                        pname, imports_for(prog, inj_used, pkg, ["github.com/google/wire"]), "\n".join(anchors), "\n\n".join(part))
+                        pname, imports_for(prog, inj_used, pkg, [WIRE_IMPORT[wimp]]), "\n".join(anchors), "\n\n".join(part))
         if inj_body and not body:
             files["%s/%s.go" % (pdir, pkg)] = "package %s\n\nvar Anchor = 0\n" % pname
     return files
@@ -1026,9 +1036,10 @@ def plant(rng, u, kind):
         cands = []
         for n in used_items:
             f = u.items[n]
-            if f["kind"] != "field":
+            if f["kind"] not in ("field", "bind"):
                 continue
-            k, m = f["parent"]
+            # a binding needs the concrete type exactly as written: wire.Bind(new(I), new(T)) is not served by *T
+            k, m = f["parent"] if f["kind"] == "field" else f["conc"]
             other = ("p" if k == "v" else "v", m)
             if (k, m) in u.src and other not in u.src and u.items[u.src[(k, m)]]["kind"] in ("func", "value") and f["outs"][0] in reach0:
                 cands.append((n, (k, m), other))
@@ -1046,7 +1057,8 @@ def plant(rng, u, kind):
         u.inj["args"].append(other)
         if u.inj.get("argnames"):
             u.inj["argnames"] = list(u.inj["argnames"]) + ["formarg"]
-        return "the parent %s of a field selection has no source; only %s is supplied (as an injector argument)" % (par, other)
+        return "the %s %s has no source; only %s is supplied (as an injector argument)" % (
+            "parent of a field selection" if u.items[n]["kind"] == "field" else "concrete type of an interface binding", par, other)
     if kind == "dup":
         cands = [n for n in used_items if u.items[n]["kind"] == "value"]
         if not cands:
